@@ -9,6 +9,7 @@ import (
 	"io"
 	"net/http"
 	"os"
+	"strconv"
 	"strings"
 	"sync"
 	"testing"
@@ -87,6 +88,7 @@ func runC03Shm(srv *vgirpc.Server, cfg c03Config, steps []c03ShmStep) (rep c03Re
 	}
 	defer seg.Close()
 	var body []byte
+	var ptrVals [][2]string
 	for i, st := range steps {
 		call := lib.CallSpec{Kind: "unary", Method: "u_str", Unary: &lib.UnaryScript{ID: lib.CallID(i), Outcome: "value", Value: fmt.Sprintf("v%d", i), Size: 300}}
 		call.Opts.Extra = [][2]string{{lib.KShmSegName, seg.Name()}, {lib.KShmSegSize, fmt.Sprint(size)}}
@@ -105,9 +107,31 @@ func runC03Shm(srv *vgirpc.Server, cfg c03Config, steps []c03ShmStep) (rep c03Re
 			panic(fmt.Sprintf("harness: AllocateAndWrite ok=%v err=%v", ok, werr))
 		}
 		keys := append(append([]string{}, b.Meta.Keys()...), lib.KShmOffset, lib.KShmLength)
-		vals := append(append([]string{}, b.Meta.Values()...), shmPointerVal(st.Off, off, size), shmPointerVal(st.Len, uint64(n), size))
+		pv := [2]string{shmPointerVal(st.Off, off, size), shmPointerVal(st.Len, uint64(n), size)}
+		ptrVals = append(ptrVals, pv)
+		vals := append(append([]string{}, b.Meta.Values()...), pv[0], pv[1])
 		ptr := lib.WithMeta(lib.EmptyBatch(ss[0].Schema), keys, vals)
 		body = append(body, lib.EncodeStream(ss[0].Schema, ptr)...)
+	}
+	// a pointer that makes the server read bytes whose IPC framing declares a
+	// huge length is the known arrow-go up-front allocation (C03/oom-declared-length):
+	// excluded by construction, like the same class of request bodies
+	if img, rerr := os.ReadFile("/dev/shm/" + strings.TrimPrefix(seg.Name(), "/")); rerr == nil {
+		for _, pv := range ptrVals {
+			off, e1 := strconv.ParseUint(pv[0], 10, 64)
+			n, e2 := strconv.Atoi(pv[1])
+			if e1 != nil || e2 != nil {
+				continue
+			}
+			end := off + uint64(n)
+			if end > uint64(len(img)) || end < off {
+				continue
+			}
+			if lib.DeclaredOversize(img[off:end]) {
+				rep.OutOK, rep.ShmSkipped, rep.ShmOversize = true, true, true
+				return
+			}
+		}
 	}
 	res := lib.RunPipe(srv, body)
 	rep.Panic = res.Panic
@@ -224,13 +248,14 @@ func c03Server(cfg c03Config) (*vgirpc.Server, *vgirpc.HttpServer) {
 }
 
 type c03Reply struct {
-	Panic   string `json:"panic"`
-	Status  int    `json:"status"`
-	OutOK   bool   `json:"out_ok"`
-	OutErr  string `json:"out_err"`
-	Streams int    `json:"streams"`
-	Last       string `json:"last,omitempty"` // shm sessions: the value in the last response stream
-	ShmSkipped bool   `json:"shm_skipped,omitempty"`
+	Panic       string `json:"panic"`
+	Status      int    `json:"status"`
+	OutOK       bool   `json:"out_ok"`
+	OutErr      string `json:"out_err"`
+	Streams     int    `json:"streams"`
+	Last        string `json:"last,omitempty"` // shm sessions: the value in the last response stream
+	ShmSkipped  bool   `json:"shm_skipped,omitempty"`
+	ShmOversize bool   `json:"shm_oversize,omitempty"`
 }
 
 // childC03 runs inside the sandbox child.
@@ -832,6 +857,11 @@ func runC03(c c03Case) (out lib.Outcome) {
 			where = "http"
 		}
 		out.Violate(lib.Keyf("C03", "panic-escaped", where, cls), "panic escaped %s (%s, tags %v): %s", where, c.Path, c.Tags, lib.Short(first, 300))
+		return
+	}
+	if r.ShmOversize {
+		out.Label("excluded:declared-oversize")
+		out.Skipped = true
 		return
 	}
 	if len(c.Shm) > 0 && !r.ShmSkipped {
